@@ -153,6 +153,54 @@ def shape(model, steps):
     return model.ask({"op": "program", "program": summarize_all(steps)})
 
 
+def lock_calls(steps):
+    """one process's calls on the lock file as tokens for the automaton of ErgoModel.LockFile (driver op `lockprog`): open+/open- (O_RDONLY: a
+    descriptor / ENOENT), stat+/stat-, creat (O_CREAT without a rename: the name is created only if missing), flock+/flock- (LOCK_EX|LOCK_NB on a
+    descriptor of the lock file: held / EWOULDBLOCK), unlock; anything else that touches the lock file, and a flock on any other file, is `bad`"""
+    out = []
+    for s in steps:
+        c, o = s["call"], s["obj"]
+        if c == "flock":
+            fl = s.get("flags", [])
+            if o != "lock":
+                out.append("bad:flock on " + o)
+            elif "LOCK_UN" in fl:
+                out.append("unlock")
+            elif sorted(fl) == ["LOCK_EX", "LOCK_NB"]:
+                out.append("flock+" if s["ret"] == "0" else "flock-" if s.get("errno") in ("EAGAIN", "EWOULDBLOCK") else "bad:flock " + str(s.get("errno")))
+            else:
+                out.append("bad:flock " + "|".join(fl))
+        elif o == "tmp->lock":
+            out.append("bad:rename onto the lock file")
+        elif o != "lock":
+            continue
+        elif c == "openat":
+            fl = s.get("flags", [])
+            if "O_CREAT" in fl:
+                out.append("creat" if s["ret"] != "-1" else "bad:create failed " + str(s.get("errno")))
+            elif fl == ["O_RDONLY"]:
+                out.append("open+" if s["ret"] != "-1" else "open-" if s.get("errno") == "ENOENT" else "bad:open " + str(s.get("errno")))
+            else:
+                out.append("bad:open " + "|".join(fl))
+        elif c in STAT_CALLS.split(","):
+            out.append("stat+" if s["ret"] == "0" else "stat-" if s.get("errno") == "ENOENT" else "bad:stat " + str(s.get("errno")))
+        elif c == "write":
+            if s.get("req") != 0:
+                out.append("bad:write to the lock file")
+        elif c in ("close", "read", "pread64"):
+            continue
+        else:
+            out.append("bad:%s on the lock file" % c)
+    return out
+
+
+def lock_program_ok(model, steps):
+    """→ (accepted by LockFile.acquireOK, tokens, phase the automaton ends in)"""
+    toks = lock_calls(steps)
+    a = model.ask({"op": "lockprog", "calls": toks})
+    return bool(a.get("ok")), toks, a.get("end")
+
+
 def summarize_all(steps):
     """like summarize, but without merging repeated reads (the predicate counts calls)"""
     out = []
